@@ -288,6 +288,16 @@ def _bracket(ck, construct, f, loop, paths, names, init):
             two = Rat.const(2)
             lo1, hi1 = (two * mid - nhi, nhi) if sign == "+" else (nlo, two * mid - nlo)
             dlo, dhi = vlo - lo1, hi1 - vhi
+            if prev is not None and not (dlo.is_const() and dhi.is_const()):
+                # not "old bound plus a constant": a bound RESET to a constant (`max_pH =+ 1` for `max_pH += 1`) that lies inside the initial
+                # bracket [0, 14] pulls the bound in instead of moving it out
+                side, newb, limit = ("upper", hi1, 14) if prev == "+" else ("lower", lo1, 0)
+                if newb.is_const() and ((prev == "+" and newb.const_value() <= limit) or (prev != "+" and newb.const_value() >= limit)):
+                    ck.ob("BRACKET", construct, False, expected="stuck search: the %s bound moves OUT from where it is" % side,
+                          found={"%s bound becomes" % side: str(newb.const_value()), "whatever it was": True}, slot="widen:%s:%s" % (sign, prev), where=f.loc(loop),
+                          note="a bound reset to a constant inside the starting bracket can never bring the root back inside")
+                    n += 1
+                    continue
             ck.shape(dlo.is_const() and dhi.is_const(), "isoelectric_point: the bracket is widened by constants", f.loc(loop))
             a, b = dlo.const_value(), dhi.const_value()
             if prev is None:
